@@ -21,7 +21,7 @@ from dagrt.exec_numpy import FailStepException, NumpyInterpreter, TransitionEven
 from dagrt.language import DAGCode, ExecutionPhase
 
 from simdag.core.outcome import Discard, Violation
-from simdag.gen.fortran_subset import FortranGen, make_registry
+from simdag.gen.fortran_subset import FortranGen, make_registry, user_type_map
 from simdag.gen.script import ERRORS, apply_script
 from simdag.model.refstepper import is_persistent
 
@@ -92,13 +92,16 @@ def persistent_names(ap, sc):
     return sorted(n for n in names if is_persistent(n))
 
 
-def has_yield(ops):
+def yield_components(ops, acc=None):
+    acc = set() if acc is None else acc
     for op in ops:
         if op[0] == "yield":
-            return True
-        if op[0] == "if" and (has_yield(op[2]) or (op[3] and has_yield(op[3]))):
-            return True
-    return False
+            acc.add(op[2])
+        if op[0] == "if":
+            yield_components(op[2], acc)
+            if op[3]:
+                yield_components(op[3], acc)
+    return acc
 
 
 def lit(v):
@@ -108,6 +111,10 @@ def lit(v):
     else:
         s += "d0"
     return s
+
+
+def ut_len(sc, ir):
+    return sc.M if sc.types.get(ir) == "utv" else sc.N
 
 
 def make_driver(sc, nmgr, pers, yields, n_elem):
@@ -148,9 +155,9 @@ def make_driver(sc, nmgr, pers, yields, n_elem):
     a("    write(*,'(A,I0)') 'PHASE ', st%dagrt_next_phase")
     for ir in pers:
         fname = nmgr.name_global(ir)
-        if sc.types.get(ir) == "ut":
+        if sc.types.get(ir) in ("ut", "utv"):
             a("    if (associated(st%%%s)) then" % fname)
-            a("      do i = 1, %d" % n_elem)
+            a("      do i = 1, %d" % ut_len(sc, ir))
             a("        write(*,'(A,I0,A,%s)') 'A %s ', i, ' ', st%%%s(i)" % (FMT, ir, fname))
             a("      end do")
             a("    else")
@@ -158,18 +165,18 @@ def make_driver(sc, nmgr, pers, yields, n_elem):
             a("    end if")
         else:
             a("    write(*,'(A,%s)') 'S %s ', st%%%s" % (FMT, ir, fname))
-    if yields:
-        rs, rt, ri = (nmgr.name_global("<ret_state>y"), nmgr.name_global("<ret_time>y"),
-                      nmgr.name_global("<ret_time_id>y"))
+    for comp in yields:
+        rs, rt, ri = (nmgr.name_global("<ret_state>" + comp), nmgr.name_global("<ret_time>" + comp),
+                      nmgr.name_global("<ret_time_id>" + comp))
         a("    if (associated(st%%%s)) then" % rs)
-        a("      do i = 1, %d" % n_elem)
-        a("        write(*,'(A,I0,A,%s)') 'A <ret_state>y ', i, ' ', st%%%s(i)" % (FMT, rs))
+        a("      do i = 1, %d" % (sc.M if comp == "v" else sc.N))
+        a("        write(*,'(A,I0,A,%s)') 'A <ret_state>%s ', i, ' ', st%%%s(i)" % (FMT, comp, rs))
         a("      end do")
         a("    else")
-        a("      write(*,'(A)') 'U <ret_state>y'")
+        a("      write(*,'(A)') 'U <ret_state>%s'" % comp)
         a("    end if")
-        a("    write(*,'(A,%s)') 'S <ret_time>y ', st%%%s" % (FMT, rt))
-        a("    write(*,'(A,%s)') 'S <ret_time_id>y ', st%%%s" % (FMT, ri))
+        a("    write(*,'(A,%s)') 'S <ret_time>%s ', st%%%s" % (FMT, comp, rt))
+        a("    write(*,'(A,%s)') 'S <ret_time_id>%s ', st%%%s" % (FMT, comp, ri))
     a("    write(*,'(A)') 'END'")
     a("    flush(6)")
     a("  end do")
@@ -222,7 +229,7 @@ def interp_reference(ctx, code, twins, sc, n_runs, has_y):
     it = NumpyInterpreter(code, twins)
     it.set_up(sc.t0, sc.dt0, {k: (v.copy() if isinstance(v, np.ndarray) else v) for k, v in sc.state0.items()})
     ref = []
-    last = None
+    last = {}
     phases_sorted = sorted(code.phases)
     tids = sorted(set(_collect_tids(sc)))
     for r in range(n_runs):
@@ -231,7 +238,7 @@ def interp_reference(ctx, code, twins, sc, n_runs, has_y):
             for ev in it.run_single_step():
                 if type(ev).__name__ == "StateComputed":
                     v = ev.state_component
-                    last = (np.array(v, dtype=float).copy(), float(ev.t), tids.index(ev.time_id))
+                    last[ev.component_id] = (np.array(v, dtype=float).copy(), float(ev.t), tids.index(ev.time_id))
         except FailStepException:
             outcome = "failed"
         except TransitionEvent as e:
@@ -252,7 +259,7 @@ def interp_reference(ctx, code, twins, sc, n_runs, has_y):
             if bad or big:
                 raise Discard("ill-defined:magnitude")
         ref.append({"outcome": outcome, "phase": phases_sorted.index(it.next_phase), "store": store,
-                    "ret": None if last is None else (last[0].copy(), last[1], last[2])})
+                    "ret": {c: (x[0].copy(), x[1], x[2]) for c, x in last.items()}})
     return ref
 
 
@@ -363,7 +370,7 @@ def run_fortran_engine(ctx, prop):
         phases[ph.name] = ExecutionPhase(ph.name, ph.next_phase, stmts)
     code = DAGCode(phases, sc.initial)
     freg, twins = make_registry(sc)
-    has_y = any(has_yield(ph.ops) for ph in sc.phases)
+    has_y = sorted(set().union(*[yield_components(ph.ops) for ph in sc.phases]))
     # ---- reference first (discards ill-defined programs before any compilation)
     ref = interp_reference(ctx, code, twins, sc, n_runs, has_y)
     if c12 and any(r["outcome"] == "raised" for r in ref):
@@ -373,8 +380,7 @@ def run_fortran_engine(ctx, prop):
     from dagrt.data import UnableToInferKind
     from dagrt.function_registry import FunctionNotFound
     try:
-        cg = f.CodeGenerator("m", function_registry=freg,
-                             user_type_map={"y": f.ArrayType((sc.N,), f.BuiltinType("real*8"), index_vars="iv")})
+        cg = f.CodeGenerator("m", function_registry=freg, user_type_map=user_type_map(sc))
         import contextlib
         import io
         buf = io.StringIO()
@@ -520,19 +526,19 @@ def compare_steps(ctx, steps, ref, sc, has_y, pers):
                 if not close(got["scal"][k], v):
                     raise Violation("state-mismatch", "%s: %s = %r, interpreter %r" % (where, k, got["scal"][k], v),
                                     site="scalar" if k not in ("<t>", "<dt>") else k)
-        if has_y and want["ret"] is not None:
+        for comp in sorted(want["ret"]):
             ctx.count("probe:ret_compared")
-            rv, rt, ri = want["ret"]
-            g = got["arr"].get("<ret_state>y")
-            if g is None or not all(close(a, b) for a, b in zip(g, rv.tolist())):
-                raise Violation("ret-mismatch", "%s: returned state %r, interpreter yielded %r"
-                                % (where, g, rv.tolist()), site="state")
-            if not close(got["scal"].get("<ret_time>y"), rt):
-                raise Violation("ret-mismatch", "%s: returned time %r, interpreter %r"
-                                % (where, got["scal"].get("<ret_time>y"), rt), site="time")
-            if not close(got["scal"].get("<ret_time_id>y"), float(ri)):
-                raise Violation("ret-mismatch", "%s: returned time id %r, interpreter %r"
-                                % (where, got["scal"].get("<ret_time_id>y"), ri), site="time_id")
+            rv, rt, ri = want["ret"][comp]
+            g = got["arr"].get("<ret_state>" + comp)
+            if g is None or len(g) != len(rv) or not all(close(a, b) for a, b in zip(g, rv.tolist())):
+                raise Violation("ret-mismatch", "%s: returned state of component %s %r, interpreter yielded %r"
+                                % (where, comp, g, rv.tolist()), site="state")
+            if not close(got["scal"].get("<ret_time>" + comp), rt):
+                raise Violation("ret-mismatch", "%s: returned time of component %s %r, interpreter %r"
+                                % (where, comp, got["scal"].get("<ret_time>" + comp), rt), site="time")
+            if not close(got["scal"].get("<ret_time_id>" + comp), float(ri)):
+                raise Violation("ret-mismatch", "%s: returned time id of component %s %r, interpreter %r"
+                                % (where, comp, got["scal"].get("<ret_time_id>" + comp), ri), site="time_id")
 
 
 def run_c03(ctx):
